@@ -921,6 +921,10 @@ def rule_N6(ctx):
                     got = _str_of_key(a[2])
                 elif a is not None and a[0] == "mcall" and a[1] == "get" and a[3]:
                     got = _str_of_key(a[3][0])
+                if got is None and (b[p] is None or vkey(b[p]) == vkey(None)):
+                    # the literal None (or a helper's default None passed on): the table is built without that input
+                    okd, whyd = False, "get_clone_table receives %s = None in %s: %s" % (p, name, "a pre-clustered run would list cluster ids instead of mutations" if p == "clusters" else "the table is not built from the run's %s" % p)
+                    continue
                 if got is None:
                     raise AnalysisError("%s: argument %s of get_clone_table is %s, not a keyed read of a chain result" % (name, p, show(b[p])[:120]))
                 if got != key:
@@ -1029,7 +1033,7 @@ def run(ctx):
 
     ctx._own_rules = set(ctx.rule_min)
     info = C10._Info()
-    for r in (C10.rule_X1, C10.rule_X2, C10.rule_X3, C10.rule_X4, C10.rule_X5, C10.rule_X6):
+    for r in (C10.rule_X1, C10.rule_X2, C10.rule_X3, C10.rule_X4, C10.rule_X5, C10.rule_X6, C10.rule_X7):
         imported(ctx, r, info)
     # the cluster table the commands read from the trace is the one the run stored, under the key and on the chain
     # they look at (same rule object as C11.A5)
